@@ -567,6 +567,13 @@ pub fn edits(t: &Term) -> Vec<(String, Term)> {
       let mut x = b.clone();
       x.push(0xfe);
       out.push((format!("{tag}.append_invalid_byte"), mk(x)));
+      // the lossy text of the bytes held as a string leaf: same source() text, other bytes when the
+      // buffer is not valid UTF-8 (then the two are different values: unequal, or else equal with
+      // equal hashes and equal answers everywhere)
+      {
+        let lossy = String::from_utf8_lossy(b).into_owned();
+        out.push((format!("{tag}.kind_buffer_to_lossy_string"), if matches!(t, Term::RawBuf(_)) { Term::Raw(lossy) } else { Term::RawStr(lossy) }));
+      }
       // every byte changed to a neighbouring value (an invalid byte stays invalid: same lossy text, other bytes)
       for i in 0..b.len() {
         let mut x = b.clone();
